@@ -436,3 +436,197 @@ func init() {
 			}
 		}})
 }
+
+func init() {
+	register(&Rule{ID: "DET.map", Min: 4, Text: "marshalled text does not depend on map iteration order: in every Marshal/marshal function of packages yson and crdt (the strings that compaction's rebuild-compare, Document.Marshal comparisons and revisions are made of), a slice filled while ranging over a map is sorted (sort.Strings / sort.Slice / slices.Sort…) before it is used, or the map's keys are sorted first and the loop runs over the sorted keys — two equal values must marshal to the same string, or packs.Compact fails at random with 'content mismatch after rebuild'",
+		Run: func(x *Ctx) {
+			isSort := func(c ssa.CallInstruction) bool {
+				o := prog.CallObj(c)
+				if o == nil || o.Pkg() == nil {
+					if f := c.Common().StaticCallee(); f != nil && f.Origin() != nil && f.Origin().Pkg != nil {
+						return strings.HasSuffix(f.Origin().Pkg.Pkg.Path(), "slices") && strings.HasPrefix(f.Origin().Name(), "Sort")
+					}
+					return false
+				}
+				p := o.Pkg().Path()
+				return (p == "sort" || p == "slices") && (strings.HasPrefix(o.Name(), "Sort") || o.Name() == "Strings" || o.Name() == "Slice" || o.Name() == "SliceStable" || o.Name() == "Ints")
+			}
+			n := 0
+			for _, fn := range x.P.FuncsIn("pkg/document/yson", crdtPkg) {
+				if !strings.Contains(strings.ToLower(fn.Name()), "marshal") || strings.Contains(strings.ToLower(fn.Name()), "unmarshal") {
+					continue
+				}
+				if o := fn.Origin(); o != nil && o != fn {
+					continue
+				}
+				i := 0
+				for _, b := range fn.Blocks {
+					for _, ins := range b.Instrs {
+						rg, ok := ins.(*ssa.Range)
+						if !ok {
+							continue
+						}
+						if _, isMap := rg.X.Type().Underlying().(*types.Map); !isMap {
+							continue
+						}
+						i++
+						n++
+						// appends fed by this iteration
+						var apps []*ssa.Call
+						for _, ap := range builtinCalls(fn, "append") {
+							for _, a := range ap.Call.Args[1:] {
+								if prog.DependsOn(a, func(w ssa.Value) bool {
+									nx, isN := w.(*ssa.Next)
+									return isN && nx.Iter == ssa.Value(rg)
+								}) {
+									apps = append(apps, ap)
+								}
+							}
+						}
+						ok2 := len(apps) == 0 // nothing order-dependent is collected (e.g. a map is filled)
+						for _, ap := range apps {
+							for _, c := range prog.CallsIn(fn) {
+								if !isSort(c) {
+									continue
+								}
+								for _, a := range c.Common().Args {
+									if prog.DependsOn(a, func(w ssa.Value) bool { return w == ssa.Value(ap) }) {
+										ok2 = true
+									}
+								}
+							}
+						}
+						x.check(ok2, fmt.Sprintf("func=%s map-range#%d collected-slice-is-sorted", prog.FnName(fn), i), x.pos(rg), "what is collected from the map is sorted before use", "a slice filled while ranging over a map is used without sorting: the marshalled string depends on Go's random map order, equal values compare unequal and the rebuild-compare of compaction fails at random")
+					}
+				}
+			}
+			if n < 4 {
+				x.C.Vacuous(x.id()+" map ranges in marshal functions", n, 4)
+			}
+		}})
+
+	register(&Rule{ID: "YSON.codec", Min: 2, Text: "the YSON writer and parser use one codec per value kind: within package yson every reference to an encoding/base64 encoding object is to the same one (the alphabet bytes are written with is the one they are parsed with), and every layout handed to time.Time.Format / time.Parse is the same constant",
+		Run: func(x *Ctx) {
+			encs := map[string][]string{}
+			layouts := map[string][]string{}
+			for _, fn := range x.P.FuncsIn("pkg/document/yson") {
+				for _, b := range fn.Blocks {
+					for _, ins := range b.Instrs {
+						switch t := ins.(type) {
+						case *ssa.UnOp:
+							if g, ok := t.X.(*ssa.Global); ok && g.Pkg != nil && g.Pkg.Pkg.Path() == "encoding/base64" {
+								encs[g.Name()] = append(encs[g.Name()], x.pos(t))
+							}
+						case *ssa.Call:
+							o := prog.CallObj(t)
+							if o == nil || o.Pkg() == nil || o.Pkg().Path() != "time" || !(o.Name() == "Format" || o.Name() == "Parse") {
+								continue
+							}
+							var lay ssa.Value
+							if o.Name() == "Parse" {
+								lay = t.Call.Args[0]
+							} else {
+								lay = t.Call.Args[len(t.Call.Args)-1]
+							}
+							if s, isS := constString(lay); isS {
+								layouts[s] = append(layouts[s], x.pos(t))
+							} else {
+								layouts["<dynamic>"] = append(layouts["<dynamic>"], x.pos(t))
+							}
+						}
+					}
+				}
+			}
+			names := func(m map[string][]string) []string {
+				var out []string
+				for k := range m {
+					out = append(out, k)
+				}
+				sort.Strings(out)
+				return out
+			}
+			x.check(len(encs) == 1, "package=yson base64-encodings-agree", firstPos(encs), fmt.Sprintf("one base64 encoding is used: %v", names(encs)), fmt.Sprintf("several base64 encodings are used in package yson %v: bytes are written with one alphabet and parsed with another (values containing '+' or '/' no longer parse back)", names(encs)))
+			x.check(len(layouts) == 1, "package=yson time-layouts-agree", firstPos(layouts), fmt.Sprintf("one time layout is used: %v", names(layouts)), fmt.Sprintf("several time layouts are used in package yson %v: a date written with one is parsed with another", names(layouts)))
+		}})
+
+	register(&Rule{ID: "YSON.attrs", Min: 2, Text: "the YSON importer copies every attribute: in package json every loop that ranges over the Attributes map of a YSON tree/text node calls the model's setter (RHT.Set / …) for every entry — the call is not under any condition inside the loop body (an entry skipped because of its value, e.g. the empty string, is an attribute the exporter still writes: the rebuild-compare of compaction then fails for ever and a revision restore silently loses it)",
+		Run: func(x *Ctx) {
+			n := 0
+			for _, fn := range x.P.FuncsIn("pkg/document/json") {
+				i := 0
+				for _, b := range fn.Blocks {
+					for _, ins := range b.Instrs {
+						rg, ok := ins.(*ssa.Range)
+						if !ok {
+							continue
+						}
+						f := prog.LoadedField(rg.X)
+						if f == nil {
+							if fv, isF := prog.Strip(rg.X).(*ssa.Field); isF {
+								f = prog.FieldVar(fv)
+							}
+						}
+						if f == nil || f.Name() != "Attributes" {
+							continue
+						}
+						i++
+						n++
+						// the setter fed by the iteration
+						var sinks []ssa.CallInstruction
+						for _, c := range prog.CallsIn(fn) {
+							if c.Common().Signature().Recv() == nil {
+								continue
+							}
+							fed := false
+							for _, a := range c.Common().Args {
+								if prog.DependsOn(a, func(w ssa.Value) bool {
+									nx, isN := w.(*ssa.Next)
+									return isN && nx.Iter == ssa.Value(rg)
+								}) {
+									fed = true
+								}
+							}
+							if fed {
+								sinks = append(sinks, c)
+							}
+						}
+						ok2 := len(sinks) > 0
+						why := "no setter is fed by the loop"
+						for _, c := range sinks {
+							// control dependences of the sink other than the loop's own 'more entries' test
+							for _, ifi := range x.P.ControlDeps(c.Block()) {
+								if ex, isE := prog.Strip(ifi.Cond).(*ssa.Extract); isE {
+									if nx, isN := ex.Tuple.(*ssa.Next); isN && nx.Iter == ssa.Value(rg) {
+										continue // the range loop itself
+									}
+								}
+								if prog.DependsOn(ifi.Cond, func(w ssa.Value) bool {
+									nx, isN := w.(*ssa.Next)
+									return isN && nx.Iter == ssa.Value(rg)
+								}) {
+									ok2 = false
+									why = "the setter is called under a condition on the entry (" + x.P.InstrPos(ifi) + ")"
+								}
+							}
+						}
+						x.check(ok2, fmt.Sprintf("func=%s attributes-loop#%d every-entry-is-set", prog.FnName(fn), i), x.pos(rg), "every entry reaches the setter", why+": an attribute the exporter writes is not imported")
+					}
+				}
+			}
+			if n < 2 {
+				x.C.Vacuous(x.id()+" attribute loops", n, 2)
+			}
+		}})
+}
+
+func firstPos(m map[string][]string) string {
+	best := ""
+	for _, ps := range m {
+		for _, p := range ps {
+			if best == "" || p < best {
+				best = p
+			}
+		}
+	}
+	return best
+}
